@@ -559,7 +559,8 @@ def render_xsiext(parts):
 def subject_xsiext(case):
     """a history: the documents are validated in order with one schema instance"""
     import xmlschema
-    s = (xmlschema.XMLSchema11 if case['version'] == '1.1' else xmlschema.XMLSchema10)(XSIEXT_XSD)
+    s = (xmlschema.XMLSchema11 if case['version'] == '1.1' else xmlschema.XMLSchema10)(
+        XSIEXT_XSD.replace('xpath=".//extra"', 'xpath="%s"' % case.get('selector', './/extra')))
     out = []
     for parts in case['docs']:
         xml = render_xsiext(parts)
@@ -577,7 +578,9 @@ def check_xsi_extension(ctx, cases=None):
     global element box, which also occurs outside any <sec>; histories of 1-3 documents per schema instance"""
     rng = ctx.rng
     if cases is None:
-        cases = [{'version': '1.1' if i % 2 else '1.0', 'docs': [gen_xsiext_doc(rng) for _ in range(rng.randint(1, 3))]}
+        # selector .//extra, and the child-step spelling box/extra of the same selection (known finding F-C08c)
+        cases = [{'version': '1.1' if i % 2 else '1.0', 'docs': [gen_xsiext_doc(rng) for _ in range(rng.randint(1, 3))],
+                  'selector': 'box/extra' if i % 4 == 3 else './/extra'}
                  for i in range(80 if ctx.quick() else 1500)]
     impl = common.pool_map(subject_xsiext, cases)
     terms = []
@@ -597,10 +600,14 @@ def check_xsi_extension(ctx, cases=None):
             ndup = next(model)
             rep = {'kind': 'xsiext', 'case': dict(c, docs=c['docs'][:k + 1]), 'xml': xml, 'xsd': XSIEXT_XSD, 'impl': r,
                    'history': [render_xsiext(p) for p in c['docs'][:k]]}
-            ctx.count(('xsiext', c['version'], k, xml, tuple(rep['history'])), nontrivial=ndup > 0 or len(parts) >= 3)
+            ctx.count(('xsiext', c['version'], c.get('selector'), k, xml, tuple(rep['history'])), nontrivial=ndup > 0 or len(parts) >= 3)
             ctx.dist('xsi:type extension family', 'document %d of its history, model %s' % (k + 1, 'invalid' if ndup else 'valid'))
             if 'exc' in r:
                 ctx.violation('validation raised %s for %s' % (r['exc'], xml), rep)
+            elif c.get('selector') == 'box/extra' and ndup > 0 and r['valid'] and r['dup'] == 0 and not r['other']:
+                # the selector is evaluated from the xsi:typed element itself, so a path with a step for that element finds
+                # nothing in the content of the instance type
+                ctx.known_finding('F-C08c')
             elif r['valid'] != (ndup == 0) or r['other']:
                 ctx.violation('%s is %s after the history %s; the unique constraint over .//extra of each <sec> says %s (%d duplicates)%s'
                               % (xml, 'accepted' if r['valid'] else 'rejected', rep['history'], 'valid' if ndup == 0 else 'invalid', ndup,
